@@ -259,16 +259,25 @@ class Check:
         """Independent group of obligations.  In the parent process sections are only registered
         (the driver re-runs the contract once per section in a child process, in parallel, and
         merges the obligations); in a child only the selected section runs."""
+        if getattr(self, "_in_section", False):
+            # a section opened inside another one belongs to it (it must not be skipped by the name filter)
+            fn()
+            return
         only = os.environ.get("PYVC_SECTION")
         if only is None and os.environ.get("PYVC_SERIAL") != "1":
             self.sections = getattr(self, "sections", []) + [name]
             return
         if only is None or only == name:
             start = len(self.obls)
-            fn()
+            self._in_section = True
+            try:
+                fn()
+            finally:
+                self._in_section = False
             if only is not None:
                 # a child reports only what its section produced (obligations recorded by the contract
-                # outside of any section are the parent's: every child runs that code again)
+                # outside of any section are the parent's: every child runs that code again); the engine's own
+                # obligations (loop invariants, call preconditions) are appended by prove_paths, inside fn
                 self._section_obls = getattr(self, "_section_obls", []) + self.obls[start:]
 
     def dump_child(self, path):
